@@ -6,7 +6,10 @@ package dig
 // subset of selected inputs, the real dig.New (setCols) + processLog run on a
 // log whose topics and data words all differ; every selected column must hold
 // the value of the input it was declared for (the k-th indexed input is topic
-// k whatever else is selected; a data input is its own word).
+// k whatever else is selected; a data input is its own word). A second family
+// puts a never-selected data input whose head is not a single value word
+// (static array, static tuple, string, dynamic array) in front of, between
+// and behind the selected data inputs.
 
 import (
 	"bytes"
@@ -111,6 +114,131 @@ func TestVerifInputsBounded(t *testing.T) {
 					fails++
 					if fails <= 10 {
 						fmt.Printf("BOUNDED-FAIL order %d mask %05b: column %s holds %v, its input %s has the word %x\n", oi, mask, col, rows[0][ci], src.name, w)
+					}
+				}
+			}
+		}
+	}
+	// second family: a data input that is never bound to a column and whose
+	// head is not one word (static array, static tuple) or is an offset
+	// (string, dynamic array), in front of, between and behind the selected
+	// data inputs x and y; one indexed input a. Every non-empty subset of
+	// {a, x, y} is selected.
+	type pad struct {
+		typ   string
+		comps []Input
+		head  int // words the input occupies in the head; 0 = offset word + tail
+		tail  int // words of tail (after the length word) for dynamic ones
+	}
+	pads := []pad{
+		{typ: "uint256[2]", head: 2},
+		{typ: "address[3]", head: 3},
+		{typ: "tuple", comps: []Input{{Name: "p", Type: "uint256"}, {Name: "q", Type: "address"}}, head: 2},
+		{typ: "tuple", comps: []Input{{Name: "p", Type: "uint256[2]"}, {Name: "q", Type: "bool"}}, head: 3},
+		{typ: "string", tail: 2},
+		{typ: "uint256[]", tail: 3},
+	}
+	for pi, pd := range pads {
+		for pos := 0; pos < 3; pos++ {
+			for mask := 1; mask < 8; mask++ {
+				plain := []inp{{"a", "address", true}, {"x", "uint256", false}, {"y", "address", false}}
+				ev := Event{Name: "E", Type: "event"}
+				tbl := wpg.Table{Name: "t"}
+				var ins []Input
+				for k, in := range plain {
+					i := Input{Name: in.name, Type: in.typ, Indexed: in.indexed}
+					if mask&(1<<k) != 0 {
+						i.Column = "c_" + in.name
+						tbl.Columns = append(tbl.Columns, wpg.Column{Name: i.Column, Type: "bytea"})
+					}
+					ins = append(ins, i)
+				}
+				z := Input{Name: "z", Type: pd.typ, Components: pd.comps}
+				// data inputs in declaration order: pos 0: z x y, 1: x z y, 2: x y z
+				switch pos {
+				case 0:
+					ev.Inputs = []Input{ins[0], z, ins[1], ins[2]}
+				case 1:
+					ev.Inputs = []Input{ins[1], z, ins[0], ins[2]}
+				case 2:
+					ev.Inputs = []Input{ins[1], ins[2], ins[0], z}
+				}
+				cases++
+				ig, err := New("ig", ev, nil, tbl, Notification{}, "")
+				if err != nil {
+					fails++
+					fmt.Printf("BOUNDED-FAIL pad %d (%s) pos %d mask %03b: New: %v\n", pi, pd.typ, pos, mask, err)
+					continue
+				}
+				want := map[string][]byte{"a": wordOf(0x10)}
+				l := eth.Log{Topics: []eth.Bytes{ig.sighash, want["a"]}}
+				var head, tail []byte
+				headWords := 2
+				if pd.head > 0 {
+					headWords += pd.head
+				} else {
+					headWords++
+				}
+				nd := 0
+				for _, in := range ev.Inputs {
+					switch {
+					case in.Indexed:
+					case in.Name == "z" && pd.head > 0:
+						for k := 0; k < pd.head; k++ {
+							w := make([]byte, 32)
+							w[31] = byte(0x40 + k) // small values: valid as bool/address/uint
+							head = append(head, w...)
+						}
+					case in.Name == "z":
+						off := make([]byte, 32)
+						off[31] = byte(headWords*32 + len(tail))
+						head = append(head, off...)
+						ln := make([]byte, 32)
+						if pd.typ == "string" {
+							ln[31] = byte(pd.tail*32 - 5)
+						} else {
+							ln[31] = byte(pd.tail)
+						}
+						tail = append(tail, ln...)
+						for k := 0; k < pd.tail; k++ {
+							tail = append(tail, wordOf(byte(0x50+k))...)
+						}
+					default:
+						nd++
+						w := wordOf(byte(0x80 + 0x10*nd))
+						head = append(head, w...)
+						want[in.Name] = w
+					}
+				}
+				l.Data = append(head, tail...)
+				lwc := &logWithCtx{ctx: context.Background(), b: &eth.Block{}, t: &eth.Tx{}, l: &l}
+				rows, err := ig.processLog(nil, lwc, &sync.Mutex{}, nil)
+				if err != nil || len(rows) != 1 {
+					fails++
+					fmt.Printf("BOUNDED-FAIL pad %d (%s) pos %d mask %03b: rows=%d err=%v\n", pi, pd.typ, pos, mask, len(rows), err)
+					continue
+				}
+				for ci, col := range ig.Columns {
+					if len(col) != 3 || col[:2] != "c_" {
+						continue
+					}
+					w := want[col[2:]]
+					ok := false
+					switch v := rows[0][ci].(type) {
+					case []byte:
+						ok = bytes.Equal(v, w) || bytes.Equal(v, w[12:])
+					case eth.Bytes:
+						ok = bytes.Equal(v, w) || bytes.Equal(v, w[12:])
+					case *uint256.Int:
+						var x uint256.Int
+						x.SetBytes(w)
+						ok = v.Eq(&x)
+					}
+					if !ok {
+						fails++
+						if fails <= 10 {
+							fmt.Printf("BOUNDED-FAIL unselected %s at position %d, mask %03b: column %s holds %v, its input has the word %x\n", pd.typ, pos, mask, col, rows[0][ci], w)
+						}
 					}
 				}
 			}
